@@ -137,6 +137,144 @@ def rule_r3(rep, program: Program):
     return r
 
 
+def rule_r4(rep, program: Program):
+    """Exact form of the gradients in the non-commutative operator algebra (numeric factors, sides and
+    transposes included) for the classes whose gradient is a closed operator expression.  Expected
+    forms come from matrix calculus (trusted table, M symmetric, x = M^-1 v):
+        array parametrisation        M = A          : d log|det| = M^-1            d v'M^-1v = -x x'
+        factor parametrisation       M = s F F'     :                              d v'M^-1v = -2 x (F^-1 v)'
+        product parametrisation      M = B P B'     : d log|det| = 2 M^-1 B P      d v'M^-1v = -2 x x' B P
+        low-rank update              M = A + s U K U': d log|det| = 2 s M^-1 U K   d v'M^-1v = -2 s x x' U K
+    LAPACK solves are interpreted by their contracts (cho_solve: c c' if lower else c' c)."""
+    import ast
+
+    from ..matalg import Alg, MatEval, NeedSplit, Val
+    from ..poly import Rat, sign_atom
+    from . import c10
+
+    r = rep.rule("R4", "gradients equal their matrix-calculus form as operator words (factors, sides, transposes; LAPACK solves by contract)", floor=9)
+    one = Rat.const(1)
+
+    def setup(cname):
+        k = program.cls(cname)
+        alg = Alg()
+        args, attrs = c10.symbolic_instance(program, k, alg)
+        s_ = one
+        if cname in ("DenseDefiniteMatrix", "DensePositiveDefiniteMatrix"):
+            attrs["self._factor"] = Val("mat", alg.atom("F"))
+            s_ = one if cname == "DensePositiveDefiniteMatrix" else sign_atom("s")
+            attrs["self._sign"] = Val("scalar", s_)
+            D = c10.den(cname, args, alg)
+            attrs["<den>"] = D
+            attrs["<s>"] = s_
+            c10.instance_lemmas(k, alg, args, attrs)
+            Minv = alg.mul(alg.inv(alg.T(alg.atom("F"))), alg.inv(alg.atom("F"))).scale(s_)
+            attrs["<inv>"] = Minv
+        elif cname in ("TriangularFactoredDefiniteMatrix", "TriangularFactoredPositiveDefiniteMatrix"):
+            D = c10.den(cname, args, alg)
+            attrs["<den>"] = D
+            s_ = one if cname.endswith("PositiveDefiniteMatrix") else sign_atom("s")
+            attrs["<s>"] = s_
+            Fm = attrs["self._factor"].v if "self._factor" in attrs else alg.atom("F")
+            Minv = alg.mul(alg.inv(alg.T(Fm)), alg.inv(Fm)).scale(s_)
+            attrs["<inv>"] = Minv
+        elif cname in c10.LOWRANK:
+            # real algebra: M = A + s U K U', Woodbury inverse through the capacitance matrix C
+            # (C10 proves that this is what `inv` constructs), lemma U' A^-1 U -> s (C - K^-1)
+            s_ = sign_atom("s")
+            attrs["self._sign"] = Val("scalar", s_)
+            attrs["self._capacitance_matrix"] = Val("mat", alg.atom("C"))
+            D = c10.den(cname, args, alg)
+            attrs["<den>"] = D
+            attrs["<s>"] = s_
+            c10.instance_lemmas(k, alg, args, attrs)
+            A_ = attrs["self.square_matrix"].v
+            Lm, Rm = attrs["self.left_factor_matrix"].v, attrs["self.right_factor_matrix"].v
+            Ai = alg.inv(A_)
+            Minv = Ai - alg.mul(alg.mul(alg.mul(alg.mul(Ai, Lm), alg.inv(alg.atom("C"))), Rm), Ai).scale(s_)
+            attrs["<inv>"] = Minv
+        else:
+            # the matrix and its inverse are opaque symmetric atoms; parameters keep their own atoms
+            alg.sym.add("Mi")
+            alg.sym.add("M")
+            attrs["<den>"] = alg.atom("M")
+            Minv = alg.atom("Mi")
+            attrs["<inv>"] = Minv
+            s_ = sign_atom("s") if cname in c10.LOWRANK else one
+            attrs["<s>"] = s_
+            if cname in c10.LOWRANK:
+                attrs["self._sign"] = Val("scalar", s_)
+        return k, alg, args, attrs, Minv, s_
+
+    def attr_mat(attrs, alg, *names):
+        for n in names:
+            v = attrs.get(n)
+            if v is not None and v.kind == "mat":
+                return v.v
+            if v is not None and v.kind == "obj":
+                return c10.den(v.cls, v.args, alg)
+        return None
+
+    table = [
+        ("DenseDefiniteMatrix", "array"), ("DensePositiveDefiniteMatrix", "array"),
+        ("TriangularFactoredDefiniteMatrix", "factor"), ("TriangularFactoredPositiveDefiniteMatrix", "factor"),
+        ("DensePositiveDefiniteProductMatrix", "product"), ("PositiveDefiniteLowRankUpdateMatrix", "lowrank"),
+    ]
+    for cname, kind in table:
+        k, alg, args, attrs, Minv, s_ = setup(cname)
+        v = alg.atom("v")
+        x = alg.mul(Minv, v)
+        want = {}
+        if kind == "array":
+            want["grad_log_abs_det"] = Minv
+            want["grad_quadratic_form_inv"] = alg.mul(x, alg.T(x)).scale(Rat.const(-1))
+        elif kind == "factor":
+            Fm = attrs["self._factor"].v
+            want["grad_quadratic_form_inv"] = alg.mul(x, alg.T(alg.mul(alg.inv(Fm), v))).scale(Rat.const(-2))
+        elif kind == "product":
+            B = attr_mat(attrs, alg, "self._rect_matrix")
+            P = attr_mat(attrs, alg, "self._pos_def_matrix")
+            if B is None:
+                raise AnalysisError(f"{cname}: rect_matrix has no value in the algebra")
+            P = P if P is not None else alg.ident()
+            BP = alg.mul(B, P)
+            want["grad_log_abs_det"] = alg.mul(Minv, BP).scale(Rat.const(2))
+            want["grad_quadratic_form_inv"] = alg.mul(alg.mul(x, alg.T(x)), BP).scale(Rat.const(-2))
+        elif kind == "lowrank":
+            U = attr_mat(attrs, alg, "self.factor_matrix", "self.left_factor_matrix")
+            K = attr_mat(attrs, alg, "self.inner_pos_def_matrix", "self.inner_symmetric_matrix", "self.inner_square_matrix")
+            if U is None or K is None:
+                raise AnalysisError(f"{cname}: factor / inner matrix have no value in the algebra")
+            UK = alg.mul(U, K)
+            want["grad_log_abs_det"] = alg.mul(Minv, UK).scale(Rat.const(2) * s_)
+            want["grad_quadratic_form_inv"] = alg.mul(alg.mul(x, alg.T(x)), UK).scale(Rat.const(-2) * s_)
+        for meth, w in want.items():
+            f = k.resolve(meth)
+            ev = MatEval(program, k, alg, attrs, c10.den, meth)
+            env = {}
+            if len(f.params) > 1:
+                env[f.params[1]] = Val("mat", v)
+            cases = []
+            try:
+                cases = [({}, val) for _a, val in ev.returns(f, env)]
+            except NeedSplit as ns:
+                for flag in (True, False):
+                    ev.assume = {ns.key: flag}
+                    cases += [({ns.key: flag}, val) for _a, val in ev.returns(f, env)]
+                ev.assume = {}
+            if not cases:
+                raise AnalysisError(f"{f.qualname}: no return value")
+            for asm, val in cases:
+                ev.assume = asm
+                got = ev._mat(f, val)
+                ok = alg.equal(got, w)
+                r.inst({"class": cname, "method": f.qualname, "case": asm, "value": repr(alg.simplify(got))[:100], "ok": ok})
+                if not ok:
+                    case_txt = f" (with the factor flagged {'lower' if asm.get('cho_lower') else 'upper'}-triangular)" if "cho_lower" in asm else ""
+                    r.violate(PROP, f"{f.qualname}[{cname}]:form:{asm}", f"{cname}.{meth}{case_txt} evaluates to {alg.simplify(got)!r} but the derivative with respect to the {kind} parameter is {alg.simplify(w)!r} (matrix calculus; x = M^-1 v): a factor, side, transpose or the convention of a LAPACK solve is wrong", node=f.node, file=f.file)
+    return r
+
+
 def run(rep, program: Program, tier: str) -> None:
     rep.explanation = (
         "Each gradient expression of the differentiable matrix classes is evaluated in Z2 (parity "
@@ -150,3 +288,4 @@ def run(rep, program: Program, tier: str) -> None:
     rule_r1(rep, program)
     rule_r2(rep, program)
     rule_r3(rep, program)
+    rule_r4(rep, program)
